@@ -107,5 +107,8 @@ func (cs *CertSet) ServerConfig(kind int, seed uint64) *tls.Config {
 		SessionTicketsDisabled: true,
 		MinVersion:             tls.VersionTLS12,
 		Time:                   time.Now,
+		// no hybrid ML-KEM key exchange: its encapsulation draws entropy that
+		// cannot be seeded, and the ciphertext content would differ run to run
+		CurvePreferences: []tls.CurveID{tls.X25519},
 	}
 }
